@@ -17,7 +17,7 @@ GEN = ["Windows"]
 def gen_span(rng, tier):
     """a dated series: (start date, length) -> numpy array of python dates; several shapes of calendar span"""
     kind = rng.choice(["tiny", "subannual", "oneyear", "multiyear", "multiyear", "holes"])
-    year = rng.randint(1950, 2100)
+    year = rng.randint(1950, 2100) if rng.random() > 0.12 else rng.choice(probes.CENTURY_YEARS) - rng.choice([0, 0, 1])
     start = datetime.date(year, 1, 1) + datetime.timedelta(days=rng.randint(0, 365))
     if kind == "tiny":
         n = rng.randint(1, 40)
@@ -148,10 +148,23 @@ def run(tier, res, force_search=False):
 
     # ---- kernels (tier B validation of the translated kernels + the property's oracle on the real code)
     lines, expect, problems_all = [], [], []
+    twin = None
     for k in range(n_kernel):
-        kind, dates = gen_span(rng, tier)
-        _, datesO = gen_span(rng, tier)
-        L, S = gen_LS(rng)
+        if twin is not None:
+            # call SEQUENCES: a second series with the same span length and the same (L, S) but another start date, processed
+            # right after the first one in the same process (a cache keyed on too little would reuse the first one's centres)
+            kind, dates0, datesO, L, S = twin
+            shift = rng.choice([31, 59, 123, 184, rng.randint(1, 300)])
+            dates = np.array([d + datetime.timedelta(days=shift) for d in dates0], dtype=object)
+            kind = kind + "+twin"
+            twin = None
+        else:
+            kind, dates = gen_span(rng, tier)
+            _, datesO = gen_span(rng, tier)
+            L, S = gen_LS(rng)
+            if kind in ("tiny", "subannual", "oneyear") and rng.random() < 0.5:
+                twin = (kind, dates, datesO, L, S)
+        probes.check_calendar(dates, problems_all)
         with warnings.catch_warnings():
             warnings.simplefilter("ignore")
             doyF, doyO = day_of_year(dates), day_of_year(datesO)
